@@ -67,6 +67,11 @@ def features() -> List[dict]:
         F("fn_branch_ret", defs=["def sel(v):", "    if v > 2:", "        return 1.5", "    return 2"], loop=["mon.write(sel(a))"]),
         F("fn_local_prom", defs=["def acc(n):", "    for i in range(n):", "        tot = i * 1.5", "        lbl = \"k\"", "    return n"], loop=["mon.write(acc(2))"]),
         F("fn_global", defs=["def bump():", "    global cnt", "    cnt = cnt + 1"], setup=["cnt = 0"], loop=["bump()", "mon.write(cnt)"]),
+        F("two_hoisted_loops", loop=["n1 = a", "for i in range(n1):", "    n1 = n1 - 1", "for i in range(n1 + 2):", "    n1 = n1 + 1", "for i in range(abs(a - 9)):", "    mon.write(i)", "    a = a + 0"]),
+        F("two_hoisted_loops_fn", defs=["def twice_loop(n2):", "    for i in range(n2):", "        n2 = n2 - 1", "    for i in range(n2 + 1):", "        n2 = n2 + 2", "    return n2"], loop=["mon.write(twice_loop(a))"]),
+        F("prom_subset_if", loop=["if a > 1:", "    ps = 1", "elif a > 0:", "    ps = 2", "else:", "    pass", "mon.write(ps)"]),
+        F("prom_subset_try", loop=["try:", "    pt2 = a", "except:", "    pass", "mon.write(pt2)"]),
+        F("prom_subset_nested", setup=["if a > 1:", "    if a > 2:", "        pn2 = 1", "else:", "    pn2 = 2", "mon.write(pn2)"]),
         F("tuple_mixed", setup=["tm = 1", "tm, tn = 2, a"], loop=["tn = tn + tm", "mon.write(tn)"]),
         F("fn_global_only", defs=["def setgg():", "    global gg", "    gg = 5"], setup=["setgg()"], loop=["gg = gg + 1", "mon.write(gg)"]),
         F("fn_global_loop_first", defs=["def setgl():", "    global gl", "    gl = 1.5"], loop=["setgl()", "gl = 7", "mon.write(gl)"]),
@@ -209,6 +214,35 @@ def gen_calls(tier: str) -> Iterator[dict]:
             yield {"id": f"G:mix:{bname}:{e1}|{e2}", "space": "G", "src": prog(G_BODIES_STR[bname], e1, e2, bname == "show"), "runs": run}
             yield {"id": f"G:mix:{bname}:{e2}|{e1}", "space": "G", "src": prog(G_BODIES_STR[bname], e2, e1, bname == "show"), "runs": run}
 
+# -- device call arguments --------------------------------------------------------------------------
+# (d) every numeric device-call position x argument expression forms that use helper templates / builtins
+D_DECLS = ["dled = Led(12)", "drgb = RGBLed(44, 45, 46)", "dsv = Servo(9)", "dm = DCMotor(22, 23, 24)", "dbz = Buzzer(8)", "dlcd = LCD(rs=30, en=31, d4=32, d5=33, d6=34, d7=35, backlight_pin=10)", 'dword = "abc"', "dli = [3, 4]"]
+D_POSITIONS = [
+    "dled.set_brightness({E})", "dled.blink({E})", "dled.blink(5, times={E})", "dled.fade_in({E})", "dled.fade_out(5, {E})", "dled.flash_pattern([1, 0], {E})",
+    "drgb.set_color({E}, 1, 2)", "drgb.on({E})", "drgb.fade(1, 2, 3, {E})", "drgb.fade(1, 2, 3, 10, {E})", "drgb.blink(1, 2, 3, {E})", "drgb.blink(1, 2, 3, 2, {E})",
+    "dsv.write({E})", "dsv.write_us({E} + 1000)", "dm.set_speed({E})", "dm.backward({E})", "dm.ramp({E}, 10)", "dm.ramp(1, {E})", "dm.run_for({E}, 1)", "dm.run_for(10, {E})",
+    "dbz.play_tone({E})", "dbz.play_tone(440, {E})", "dbz.beep({E})", "dbz.beep(440, times={E})", "dbz.beep(440, on_ms={E})", "dbz.sweep(100, 200, {E})", "dbz.sweep(100, 200, 30, steps={E})", 'dbz.melody("siren", {E})',
+    'dlcd.write(int({E}) % 4, 0, "x")', 'dlcd.write(0, int({E}) % 2, "x")', "dlcd.progress(0, {E})", "dlcd.progress(0, 5, max_value={E} + 1)", "dlcd.brightness({E})", 'dlcd.animate("scroll", 0, "t", speed_ms={E})',
+    "sleep({E})", "analog_write(6, {E})", "digital_write(7, {E} > 2)",
+]
+D_FORMS = ["abs(a - 5)", "abs(a) * 10", "min(a, 3)", "max(a, 2) * 2", "len(dword)", "len(dli) + a", "int(a * 0.5)", "a if a > 2 else 3", "dhalf(a)", "dli[0]", "dli[-1] + 1", "float(a)", "a // 2", "a % 7",
+           "abs(dhalf(a))", "min(abs(a), max(a, 1))", "-a", "not a", "a > 2", "pot_d.read() // 8", "dm.get_speed() * 10", "dled.get_brightness() // 2"]
+
+
+def gen_device_args(tier: str) -> Iterator[dict]:
+    run = [{"passes": 1, "ar": {"A0": [4], "A1": [5], "A2": [6]}}]
+    defs = ["def dhalf(v):", "    return v / 2"]
+    for pi, pos in enumerate(D_POSITIONS):
+        for fi, form in enumerate(D_FORMS):
+            line = pos.replace("{E}", form)
+            for placement in ("loop", "helper"):
+                if placement == "loop":
+                    src = common.script(D_DECLS + ['pot_d = Potentiometer("A1")'], [line, "sleep(1)"], prologue=PRO, defs=defs)
+                else:
+                    src = common.script(D_DECLS + ['pot_d = Potentiometer("A1")', "def act():", "    " + line, "act()"], ["act()", "sleep(1)"], prologue=PRO, defs=defs)
+                yield {"id": f"D:{pi}:{fi}:{placement}", "space": "D", "src": src, "runs": run}
+
+
 # -- string literals -------------------------------------------------------------------------------
 NON_ASCII = ["é", "ß", "日", "€", "😀", "\u00a0", "ÿ"]
 
@@ -305,6 +339,8 @@ def main(tier: str, seed: int, only=None) -> int:
         common.drive(report, MOD, gen_features(tier), opts={"host": False}, batch_size=40, bad=bad)
     if not only or "G" in only:
         common.drive(report, MOD, gen_calls(tier), opts={"host": False}, batch_size=40, bad=bad, include_witnesses=False)
+    if not only or "D" in only:
+        common.drive(report, MOD, gen_device_args(tier), opts={"host": False}, batch_size=40, bad=bad, include_witnesses=False)
     if not only or "L" in only:
         common.drive(report, MOD, gen_literals(tier), opts={"host": True, "host_timeout": 30}, batch_size=2, bad=bad, include_witnesses=False)
     fs = features()
